@@ -732,12 +732,26 @@ class Data(Field):
                     fragments.append(custom_regexp, is_literal=False)
 
             else:
-                endswith = (
-                    re.escape(self.until_marker)
-                    if isinstance(self.until_marker, bytes) else
-                    # as a group: the pattern may be an alternation (a|b)
-                    b"(?:" + self.until_marker.pattern + b")"
-                )
+                if isinstance(self.until_marker, bytes):
+                    endswith = re.escape(self.until_marker)
+                else:
+                    # As a group: the pattern may be an alternation (a|b).
+                    # The group carries the flags which the delimiter was
+                    # compiled with (they are not part of its pattern, and
+                    # global flags like (?i) cannot be in the middle of a
+                    # bigger expression).
+                    pattern = re.sub(
+                        rb"^\(\?[aiLmsux]+\)", b"", self.until_marker.pattern
+                    )
+                    flags = self.until_marker.flags
+                    on = b"".join(
+                        letter for letter, flag in (
+                            (b"i", re.I), (b"m", re.M), (b"s", re.S),
+                            (b"x", re.X)
+                        ) if flags & flag
+                    )
+                    off = b"" if flags & re.S else b"-s"
+                    endswith = b"(?" + on + off + b":" + pattern + b")"
                 if value.regexp is not None and self.include_delimiter:
                     # the value (and the custom regexp that describes it)
                     # already includes the delimiter
